@@ -377,6 +377,10 @@ def curated():
     add(("repeat_effect_until", LV, A(1)))
     add(("repeat_effect_until", ("thenv", L), A(2)))
     add(("repeat_effect_until", ("sequence", LV, LV), A(1)))
+    # sources that own a tracked value: the re-connect of retry/repeat copies it (lvalue connect)
+    add(("repeat_effect_until", ("thenv", "just"), A(2)))
+    add(("retry_when", ("then", "just"), LV, A(1)))
+    add(("repeat_effect_until", ("sequence", ("thenv", "just"), LV), A(1)))
     # contexts
     add(("via", L, A(1)))
     add(("on", L, A(1)))
